@@ -150,6 +150,15 @@ def s_lazy_call():
     return {"k": "lazy_call"}
 
 
+def add_setvar(p, module, readers, frozen=False):
+    """A module-level set of strings read (sorted) by the given functions of that module; never edited."""
+    src = "{'alpha', 'beta', 'gamma', 'delta', 'epsilon', 'zeta', 'eta', 'theta'}"
+    p["setvar"] = {"module": module, "name": "SET_OF_NAMES", "src": "frozenset(%s)" % src if frozen else src}
+    for fid in readers:
+        assert p["fns"][fid]["module"] == module
+        p["fns"][fid]["reads_setvar"] = True
+
+
 def add_lazy(p, const=1, var="3"):
     p["lazy"] = {"name": p["pkg"] + "_lz", "const": const, "var": var, "comment": "c0"}
     return p["lazy"]
@@ -339,6 +348,9 @@ def _render_fn_lines(p, fid, ctx, prelude):
     lines.append("    r = [%r, %d%s]" % (f["name"], f["const"], "".join(", " + n for n, _ in f["params"])))
     # a comprehension: its target is local to the function whatever the module defines under that name
     lines.append("    r.append([cv * 2 for cv in (1, 2)])")
+    if f.get("reads_setvar") and p.get("setvar") and p["setvar"]["module"] == f["module"]:
+        # a module variable of a type whose iteration order depends on the interpreter's hash seed (never edited)
+        lines.append("    r.append(sorted(%s))" % p["setvar"]["name"])
     if f.get("uses_builtins"):
         # calls of Python builtins (elsewhere a module variable may legitimately carry one of these names)
         lines.append("    r.append((max(1, 2), format(3), list(filter(None, (0, 1))), sorted([2, 1])))")
@@ -459,6 +471,8 @@ def render_module(p, m):
             blocks.append(("cls", xid, render_cls(p, xid, ctx)))
         elif kind == "extra":
             blocks.append(("extra", xid, p["extras"][xid]))
+    if p.get("setvar") and p["setvar"]["module"] == m:
+        prelude.append("%s = %s" % (p["setvar"]["name"], p["setvar"]["src"]))
     head = ["# module %s" % m, "import datetime", "import pathlib", "from pathlib import PurePosixPath", "import dds", "from vp import vlog"] + [i for i in ctx.imports if i != "import pathlib"]
     text = "\n".join(head) + "\n\n" + "".join(l + "\n" for l in ctx.alias_assigns) + "".join(l + "\n" for l in prelude) + "\n"
     for kind, xid, t in blocks:
